@@ -191,6 +191,7 @@ impl Default for Explorer {
 
 impl Explorer {
     pub fn run<M: Model>(&self, m: &M) -> Outcome<M::Action> {
+        crate::report::progress(&format!("E1 model {} {}", m.name(), m.config()));
         let mut stats = Stats::default();
         let mut violations: Vec<(Violation, Vec<M::Action>)> = Vec::new();
         let mut seen_sigs: HashSet<String> = HashSet::new();
